@@ -231,12 +231,12 @@ Lemma c05_face_exact_thm :
   forall (pal256 gray4 : rgba -> N), (forall c, pal256 c < 256) ->
   forall (glyphs kitty : bool) (f : face), cmd_ok (Face f) = true ->
   exists bs t, encode pal256 gray4 (mkCaps TrueColor glyphs kitty) (Face f) = Ok bs /\
-    vt_ops bs = [OSgr t] /\
+    vt_ops bs = [OSgr t] /\ t_bad t = false /\
     forall prior : rendition, rt_apply t prior = face_rendition f.
 Proof.
   intros pal gray Hp gl ki f Hok.
   destruct (encode_meaning pal gray Hp (mkCaps TrueColor gl ki) (Face f) Hok) as (bs & E & M & _).
-  exists bs, (face_trans pal gray TrueColor f). split; [exact E|]. split; [exact M|].
+  exists bs, (face_trans pal gray TrueColor f). split; [exact E|]. split; [exact M|]. split; [reflexivity|].
   intros prior. apply face_trans_truecolor.
 Qed.
 
